@@ -244,6 +244,27 @@ def sphere_case(rec, rng, case_id):
 
 def run_shard(rec, tier, seed, shard, nshards):
     n = N_CASES[tier]
+    if shard % 2:
+        # hostile surroundings: in every second shard the user has loaded
+        # modules DERIVED from the shipped ones (star import, own model
+        # function) before the shipped models are evaluated
+        import shutil
+        import tempfile
+        from nanite import model
+        from .. import hmodels
+        tmp = tempfile.mkdtemp(prefix="nv_c02_")
+        try:
+            for mk in gen.SHIPPED:
+                try:
+                    key, _ = hmodels.load_derived(mk, tmp, "s%d" % shard)
+                    model.models_available.pop(key, None)
+                    rec.event("derived user modules loaded before the "
+                              "shipped models were evaluated")
+                except BaseException as e:  # noqa
+                    rec.event("derived user module not accepted (%s)"
+                              % type(e).__name__)
+        finally:
+            shutil.rmtree(tmp, ignore_errors=True)
     for i in range(n):
         rng = core.case_rng(seed, ID, shard, i)
         if i % 25 == 24:
